@@ -108,18 +108,124 @@ func genC04(r *rng, n int) {
 		g := newTgen(r.fork())
 		g.maxDepth = 3
 		root := g.genStruct(0)
-		idl := g.idl(root)
+		if r.chance(30) {
+			// a map (keyed by double / struct / string / i32) of structs: paths through a map entry that end in a field
+			var kt *Ty
+			switch r.intn(4) {
+			case 0:
+				kt = &Ty{K: thrift.DOUBLE}
+			case 1:
+				kt = g.genStruct(g.maxDepth)
+			case 2:
+				kt = &Ty{K: thrift.STRING}
+			default:
+				kt = &Ty{K: thrift.I32}
+			}
+			id := int16(20000 + r.intn(10000))
+			root.Fields = append(root.Fields, &Fld{ID: id, Name: fmt.Sprintf("mx_%d", id), T: &Ty{K: thrift.MAP, Key: kt, Elem: g.genStruct(2)}})
+		}
+		rootMode := r.chance(25)
+		top := root // the struct the IDL's service method takes
+		if rootMode {
+			// the ROOT value is a container (not wrapped in a struct): its last byte is the end of the buffer
+			var ct *Ty
+			switch r.intn(4) {
+			case 0:
+				ct = &Ty{K: thrift.LIST, Elem: g.genType(2)}
+			case 1:
+				ct = &Ty{K: thrift.SET, Elem: g.genType(2)}
+			case 2:
+				ct = &Ty{K: thrift.LIST, Elem: &Ty{K: thrift.LIST, Elem: g.genType(3)}}
+			default:
+				ct = &Ty{K: thrift.MAP, Key: &Ty{K: g.keyKinds[r.intn(len(g.keyKinds))]}, Elem: g.genType(2)}
+			}
+			g.nname++
+			top = &Ty{K: thrift.STRUCT, Name: fmt.Sprintf("W%d", g.nname), Fields: []*Fld{{ID: 1, Name: "w", T: ct}}}
+			g.structs = append(g.structs, top)
+			root = ct
+		}
+		idl := g.idl(top)
 		desc, err := parseThrift(idl, thrift.Options{})
 		if err != nil {
 			die("generated IDL does not parse: %v\n%s", err, idl)
 		}
+		if rootMode {
+			desc = desc.Struct().FieldById(1).Type()
+		}
 		val := g.genValue(root, 0)
+		if rootMode {
+			if r.chance(30) {
+				val.Elems, val.Keys = nil, nil // empty root container
+			}
+			if root.K == thrift.LIST && root.Elem.K == thrift.LIST && len(val.Elems) > 0 && r.chance(60) {
+				val.Elems[len(val.Elems)-1].Elems = nil // empty LAST element of a root list<list<..>>
+			}
+		}
 		buf := val.encode(nil)
 		typed := r.chance(40)
-		node := generic.NewNode(thrift.STRUCT, append([]byte(nil), buf...))
+		node := generic.NewNode(root.K, append([]byte(nil), buf...))
 		value := generic.NewValue(desc, append([]byte(nil), buf...))
-		fields := []string{fi(int(thrift.STRUCT)), fx(buf)}
+		fields := []string{fi(int(root.K)), fx(buf)}
 		nops := 1 + r.intn(8)
+		// scripted ops run first
+		type scriptOp struct {
+			kind int
+			p    []Step
+			subT *Ty
+			name bool
+		}
+		var script []scriptOp
+		if rootMode {
+			if len(val.Elems) > 0 && r.chance(60) { // empty the root container by unsets, front to back
+				for i := range val.Elems {
+					st := Step{Kind: 2, N: 0}
+					if root.K == thrift.MAP {
+						st = Step{Kind: 5, B: val.Keys[i].encode(nil)}
+					}
+					script = append(script, scriptOp{kind: 2, p: []Step{st}, subT: root.Elem})
+				}
+			}
+			for k := 0; k < 1+r.intn(2); k++ { // (re)fill it
+				if st, ok := g.absentStep(root, val); ok {
+					script = append(script, scriptOp{kind: 1, p: []Step{st}, subT: root.Elem})
+				}
+			}
+			if root.K == thrift.LIST && root.Elem.K == thrift.LIST && len(val.Elems) > 0 && len(script) <= 2 {
+				last := len(val.Elems) - 1
+				script = append([]scriptOp{{kind: 1, p: []Step{{Kind: 2, N: int64(last)}, {Kind: 2, N: int64(len(val.Elems[last].Elems))}}, subT: root.Elem.Elem}}, script...)
+			}
+		} else if typed {
+			// Value API through a map entry addressed by its RAW key, ending in a field NAME: unset a field / insert a missing one
+			var all [][]Step
+			val.allPaths(nil, &all, 200, r)
+			n := 0
+			for _, b := range all {
+				cv := val.at(b)
+				ct := typeAt(root, b)
+				if cv == nil || ct == nil || cv.T.K != thrift.STRUCT || len(b) < 2 || !declaredIn(root, b) {
+					continue
+				}
+				bb, hasMap := binForm(val, b)
+				if !hasMap {
+					continue
+				}
+				if len(cv.FIDs) > 0 && r.chance(60) {
+					id := cv.FIDs[r.intn(len(cv.FIDs))]
+					script = append(script, scriptOp{kind: 2, p: append(append([]Step(nil), bb...), Step{Kind: 1, N: int64(id)}), subT: &Ty{K: thrift.I32}, name: true})
+				}
+				if st, ok := g.absentStep(ct, cv); ok {
+					pp := append(append([]Step(nil), bb...), st)
+					script = append(script, scriptOp{kind: 1, p: pp, subT: typeAt(root, pp), name: true})
+				}
+				n++
+				if n >= 2 {
+					break
+				}
+			}
+		}
+		if nops < len(script) {
+			nops = len(script)
+		}
 		var ops []string
 		done := 0
 		// the harness tracks the current abstract value only approximately: after each op it re-derives paths from the
@@ -132,7 +238,13 @@ func genC04(r *rng, n int) {
 			var subT *Ty
 			kind := 1
 			cls := r.intn(10)
+			forceName := false
+			if oi < len(script) {
+				cls = 100
+				p, subT, kind, forceName = script[oi].p, script[oi].subT, script[oi].kind, script[oi].name
+			}
 			switch {
+			case cls == 100: // scripted
 			case cls < 4 && len(base) > 0: // replace an existing element / unset it
 				p = base
 				subT = typeAt(root, p)
@@ -222,7 +334,7 @@ func genC04(r *rng, n int) {
 			flags := 1
 			byName := 0
 			pEmit := p
-			if typed && r.chance(40) {
+			if typed && (forceName || r.chance(40)) {
 				if np, changed := nameSteps(root, p, r); changed {
 					gp = toPath(np)
 					pEmit = np
@@ -335,4 +447,49 @@ func declBit(root *Ty, p []Step) int {
 		return 2
 	}
 	return 0
+}
+
+// the same path with every map step spelled as a raw (binary) key; reports whether the path passes through a map
+func binForm(v *Val, p []Step) ([]Step, bool) {
+	cur := v
+	out := make([]Step, 0, len(p))
+	hasMap := false
+	for _, s := range p {
+		if cur == nil {
+			return nil, false
+		}
+		switch s.Kind {
+		case 1:
+			next := (*Val)(nil)
+			for i, id := range cur.FIDs {
+				if int64(id) == s.N {
+					next = cur.Fields[i]
+					break
+				}
+			}
+			out = append(out, s)
+			cur = next
+		case 2:
+			if s.N < 0 || int(s.N) >= len(cur.Elems) {
+				return nil, false
+			}
+			out = append(out, s)
+			cur = cur.Elems[s.N]
+		default:
+			next := (*Val)(nil)
+			for i, k := range cur.Keys {
+				if (s.Kind == 3 && string(k.S) == string(s.B)) || (s.Kind == 4 && k.I == s.N) || (s.Kind == 5 && string(k.encode(nil)) == string(s.B)) {
+					out = append(out, Step{Kind: 5, B: k.encode(nil)})
+					next = cur.Elems[i]
+					hasMap = true
+					break
+				}
+			}
+			cur = next
+		}
+	}
+	if cur == nil {
+		return nil, false
+	}
+	return out, hasMap
 }
